@@ -231,16 +231,52 @@ func runC10(c *Check) {
 	}
 	// newCopy really parses from the serialized bytes
 	if nc := c.anchorFn("C10-R2", "internal/driver", "profileCopier.newCopy"); nc != nil {
-		ok := false
-		for _, b := range nc.Blocks {
-			for _, ins := range b.Instrs {
-				if ret, isRet := ins.(*ssa.Return); isRet && len(ret.Results) == 1 {
-					if ex, isEx := ret.Results[0].(*ssa.Extract); isEx {
-						if call, isCall := ex.Tuple.(*ssa.Call); isCall && call.Call.StaticCallee() != nil && strings.HasPrefix(call.Call.StaticCallee().Name(), "Parse") && fnPkgPath(call.Call.StaticCallee()) == modPath+"/profile" {
-							ok = true
-						}
+		// every value it returns is the profile handed back by profile.Parse*, directly or
+		// through a helper of the package that does the decoding
+		var fromParse func(v ssa.Value, depth int) bool
+		fromParse = func(v ssa.Value, depth int) bool {
+			if depth > 3 {
+				return false
+			}
+			switch x := v.(type) {
+			case *ssa.Extract:
+				return fromParse(x.Tuple, depth)
+			case *ssa.Phi:
+				for _, e := range x.Edges {
+					if !fromParse(e, depth+1) {
+						return false
 					}
 				}
+				return len(x.Edges) > 0
+			case *ssa.Call:
+				sc := x.Call.StaticCallee()
+				if sc == nil {
+					return false
+				}
+				if strings.HasPrefix(sc.Name(), "Parse") && fnPkgPath(sc) == modPath+"/profile" {
+					return true
+				}
+				if fnPkgPath(sc) == fnPkgPath(nc) && len(sc.Blocks) > 0 {
+					n := 0
+					for _, b := range sc.Blocks {
+						if ret, isRet := b.Instrs[len(b.Instrs)-1].(*ssa.Return); isRet && len(ret.Results) >= 1 {
+							n++
+							if !fromParse(ret.Results[0], depth+1) {
+								return false
+							}
+						}
+					}
+					return n > 0
+				}
+			}
+			return false
+		}
+		ok := false
+		nret := 0
+		for _, b := range nc.Blocks {
+			if ret, isRet := b.Instrs[len(b.Instrs)-1].(*ssa.Return); isRet && len(ret.Results) == 1 {
+				nret++
+				ok = fromParse(ret.Results[0], 0) && (ok || nret == 1)
 			}
 		}
 		if ok {
